@@ -1,4 +1,5 @@
 import Walrus.Proofs.Module
+import Walrus.Proofs.FuncSigs
 
 /-!
 # C04 — module-level structure is preserved by the round trip
@@ -80,6 +81,84 @@ example : (roundTripModule sample).map (·.exports) = some [("main", "f", 1), ("
 example : (roundTripModule sample).map (·.start) = some (some 1) := by decide
 example : (roundTripModule sample).map (·.globals) =
     some [(⟨"funcref", false, false⟩, [⟨"RefFunc", [.ref "f" 1]⟩])] := by decide
+
+
+/-- **every function keeps its signature**: the `j`-th function of the output's function section is
+    the input's `k`-th local function for some `k` (the round trip reorders functions by size), and
+    the signature the output's type section gives it is the signature the input's type section
+    gave to that function — through type de-duplication, type sorting and function reordering.
+    The function count is preserved. -/
+theorem functions_keep_their_signature (m o : ModuleM) (h : roundTripModule m = some o) :
+    o.funcs.length = m.funcs.length ∧
+    ∀ (j tj : Nat), o.funcs[j]? = some tj → ∃ (k tk : Nat) (sg : Sig), m.funcs[k]? = some tk ∧
+      m.sigs[tk]? = some sg ∧ o.sigs[tj]? = some sg := by
+  unfold roundTripModule at h
+  simp only at h
+  split at h
+  · cases h
+  · rename_i hlen
+    split at h
+    · cases h
+    · rename_i pfs hpfs
+      split at h
+      · cases h
+      · rename_i oc hoc
+        split at h
+        · rename_i im gl ex st el da him hgl hex hst hel hda
+          simp only [Option.some.injEq] at h
+          subst h
+          simp only
+          have hcl : (List.map (fun p : (List (Nat × String) × List (Op × Nat)) × Nat => (⟨p.2, p.1.1, p.1.2⟩ : InFunc)) (m.code.zip m.funcs)).length = m.funcs.length := by
+            have : m.code.length = m.funcs.length := by simpa using hlen
+            simp [this]
+          constructor
+          · -- lengths: emitted functions = parsed functions = input functions
+            have h1 := (parseCode_spec _ pfs hpfs).1
+            unfold emitCode emitCodeWith keepAll at hoc
+            simp only [Option.map_eq_some_iff] at hoc
+            obtain ⟨fs, hfs, rfl⟩ := hoc
+            have h2 := mapM_some_length _ _ _ hfs
+            simp only [List.length_map]
+            rw [h2]
+            have h3 : ∀ (l : List (ParsedFunc × Nat)), (sortBy (fun a b => decide (a.2 > b.2) || (a.2 == b.2 && decide (a.1.id ≤ b.1.id))) l).length = l.length := by
+              intro l
+              induction l with
+              | nil => rfl
+              | cons x xs ih =>
+                simp only [sortBy, List.foldr_cons] at ih ⊢
+                have hins : ∀ (y : ParsedFunc × Nat) (r : List (ParsedFunc × Nat)),
+                    (insertBy (fun a b => decide (a.2 > b.2) || (a.2 == b.2 && decide (a.1.id ≤ b.1.id))) y r).length = r.length + 1 := by
+                  intro y r
+                  induction r with
+                  | nil => rfl
+                  | cons z zs ihz => simp only [insertBy]; split <;> simp [ihz]
+                rw [hins, ih]; rfl
+            rw [h3]
+            simp only [List.length_map]
+            have hall : (pfs.filter fun f => (List.range (importedCount m "f" + pfs.length)).contains f.id) = pfs := by
+              apply List.filter_eq_self.2
+              intro pf hpf
+              obtain ⟨k, hk⟩ := List.getElem?_of_mem hpf
+              have hklt : k < pfs.length := (List.getElem?_eq_some_iff.1 hk).1
+              have hkf : k < (List.map (fun p : (List (Nat × String) × List (Op × Nat)) × Nat => (⟨p.2, p.1.1, p.1.2⟩ : InFunc)) (m.code.zip m.funcs)).length := by
+                rw [← h1]; exact hklt
+              obtain ⟨pf2, hpf2, hid, _⟩ := (parseCode_spec _ pfs hpfs).2 k _ (List.getElem?_eq_getElem hkf)
+              rw [hk] at hpf2
+              injection hpf2 with hpf2
+              subst hpf2
+              simp [hid]
+              omega
+            rw [hall, h1, hcl]
+          · intro j tj hj
+            simp only [List.getElem?_map, Option.map_eq_some_iff] at hj
+            obtain ⟨f, hf, rfl⟩ := hj
+            obtain ⟨k, inF, sg, hk, _, hsg, hos⟩ := emitted_function_keeps_signature _ pfs oc hpfs hoc j f hf
+            simp only [List.getElem?_map, Option.map_eq_some_iff] at hk
+            obtain ⟨q, hq, rfl⟩ := hk
+            refine ⟨k, q.2, sg, ?_, hsg, hos⟩
+            have := List.getElem?_zip_eq_some.1 hq
+            exact this.2
+        · cases h
 
 end C04
 end Walrus
